@@ -411,7 +411,7 @@ func checkC36(c *Ctx, r *Report) {
 	allowedWriters := map[string]string{}
 	for _, w := range fieldWriters(m, pkgSQLDiscovery+".SegmentRef", "MaxOffset", false) {
 		allowedWriters[funcName(w.Fn)] = w.Fn.Name()
-		fnn := w.Fn.Name()
+		fnn := shortName(w.Fn)
 		key := "MaxOffset written in " + fnn
 		switch {
 		case fnn == "ListCompleted" || fnn == "listCompleted":
